@@ -41,6 +41,7 @@ type Spec struct {
 	StopEarly  bool       `json:"stop_early"` // close the listener while connections are in flight
 	RealMetrics bool      `json:"real_metrics"`
 	TCPBuf     int        `json:"tcpbuf,omitempty"` // socket buffer size (small: writes block and can fail part-way)
+	Shared     bool       `json:"shared_listener,omitempty"` // the listener comes from a ListenerManager
 }
 
 func (s Spec) String() string { b, _ := json.Marshal(s); return string(b) }
@@ -96,7 +97,11 @@ func Build(s Spec, o *Obs, newMetrics func() service.ServiceMetrics) func() {
 				return &tee{rec, o.Metrics.AddOpenTCPConnection(conn)}
 			}
 		}
-		w.Start()
+		if s.Shared {
+			w.StartShared()
+		} else {
+			w.Start()
+		}
 		if s.AcceptErr {
 			w.Ln.InjectAcceptError()
 		}
@@ -309,7 +314,7 @@ func Build(s Spec, o *Obs, newMetrics func() service.ServiceMetrics) func() {
 				ts = append(ts, vrt.Spawn(fmt.Sprintf("client%d", i), func() { o.Conns[i] = run(i, cs) }))
 			}
 			if s.StopEarly {
-				w.Ln.Close()
+				w.CloseListener()
 			}
 			vrt.Join(ts...)
 		} else {
@@ -320,7 +325,7 @@ func Build(s Spec, o *Obs, newMetrics func() service.ServiceMetrics) func() {
 		}
 		vrt.WaitIdle()
 		if !s.StopEarly {
-			w.Ln.Close()
+			w.CloseListener()
 		}
 		w.Stop2()
 		for _, t := range tgts {
@@ -339,6 +344,11 @@ func Build(s Spec, o *Obs, newMetrics func() service.ServiceMetrics) func() {
 						co.SrvRead, co.SrvWritten = r.Srv.BytesRead, r.Srv.BytesWritten
 					}
 				}
+			}
+		}
+		for i, co := range o.Conns {
+			if co != nil && 4*i < len(tgts) && len(tgts[4*i].Got) > 0 {
+				co.TargetGot = tgts[4*i].Got[0]
 			}
 		}
 		// proxy->target sockets: every client connection has its own target port
